@@ -394,8 +394,8 @@ def trace_identity(chk, terms, extra, procs):
                                     os.path.abspath('c08-stress-out.json')], env=env, stdout=subprocess.DEVNULL,
                                    stderr=subprocess.PIPE, text=True)
     work = [(terms[i:i + 4], []) for i in range(0, len(terms), 4)] + [([], extra[i::procs]) for i in range(procs)]
-    with multiprocessing.get_context('fork').Pool(procs) as pool:
-        results = list(itertools.chain.from_iterable(pool.map(_measure_work, work, chunksize=1)))
+    with concurrent.futures.ProcessPoolExecutor(procs, mp_context=multiprocessing.get_context('fork')) as pool:
+        results = list(itertools.chain.from_iterable(pool.map(_measure_work, work)))
     pairs, measured, position = [], [], {}
     for p, m in results:
         key = pair_key(p)
